@@ -318,6 +318,13 @@ func (w *world) apply(ws []string) bool {
 			return true
 		}
 		p := w.procFor("rt")
+		for _, t := range ws[2:] {
+			// `via=<ext>`: the Runtime API is called by another local process (an extension), e.g. after the
+			// runtime process itself has been killed
+			if strings.HasPrefix(t, "via=") {
+				p = w.s.Sup.Live(t[4:])
+			}
+		}
 		if p == nil {
 			return false
 		}
